@@ -226,6 +226,10 @@ detail::TypedArgBase*
    subGroup.setIsSubGroupHandler();
 
    const detail::ArgumentKey  key( arg_spec);
+
+   // within one handler a key designates one argument, whichever kind it is
+   mArguments.checkKeyUnused( key);
+
    auto  arg_hdl = new detail::TypedArgSubGroup( key, subGroup);
 
    arg_hdl->setKey( key);
@@ -766,10 +770,28 @@ Handler::ArgResult
                        noexcept( false)
 {
 
-   auto  p_arg_hdl = mSubGroupArgs.findArg( key);
+   // the sub-group arguments and the other arguments are stored in two
+   // containers, but the key must be looked up as in one: an exact key wins
+   // against every abbreviation, and an abbreviation must be unique in both
+   detail::TypedArgBase*  p_arg_hdl = nullptr;
+   bool                   is_sub_group = false;
 
 
-   if (p_arg_hdl != nullptr)
+   if (mSubGroupArgs.hasArgument( key))
+   {
+      p_arg_hdl = mSubGroupArgs.findArg( key);
+      is_sub_group = true;
+   } else if (!mArguments.hasArgument( key))
+   {
+      p_arg_hdl = mSubGroupArgs.findArg( key);
+      is_sub_group = (p_arg_hdl != nullptr);
+      if (is_sub_group && (mArguments.findArg( key) != nullptr))
+         throw runtime_error( "Long argument abbreviation '"
+                              + format::toString( key)
+                              + "' matches more than one argument");
+   } // end if
+
+   if (is_sub_group)
    {
       handleIdentifiedArg( p_arg_hdl, key);
 
@@ -1355,6 +1377,9 @@ detail::TypedArgBase* Handler::internAddArgument( detail::TypedArgBase* ah_obj,
 
    ah_obj->setKey( key);
    ah_obj->setConstraintsContainer( &mConstraints);
+
+   // within one handler a key designates one argument, whichever kind it is
+   mSubGroupArgs.checkKeyUnused( key);
 
    mArguments.addArgument( ah_obj, key);
    mDescription.addArgument( desc, ah_obj);
